@@ -196,7 +196,10 @@ def accept_one(v, key, how, d, wrap):
 
 
 # ------------------------------------------------------------------------------------------------ C02 / C17: emit
-WRONG = {"null": None, "int": 7, "str": "seven", "bool": True, "list": ["x"], "dict": {"k": "v"}, "float": 1.5, "nested": [{"a": [None, {"b": []}]}], "emptystr": ""}
+WRONG = {"null": None, "int": 7, "str": "seven", "bool": True, "list": ["x"], "dict": {"k": "v"}, "float": 1.5, "nested": [{"a": [None, {"b": []}]}], "emptystr": "",
+         # text that is itself JSON of some kind (several entry points also take JSON text where a dictionary is expected)
+         "json_text_number": "5", "json_text_list": "[]", "json_text_null": "null", "json_text_string": "\"x\"", "json_text_object": "{\"k\": \"v\"}", "json_text_true": "true",
+         "huge_int": 10 ** 400, "huge_float_text": "1e999"}
 
 
 def constraint_violations(g, key, base, t):
@@ -569,6 +572,47 @@ def junk_lines(chk, quick):
             for tag in ("a", "b"):
                 lines.append(junk_one("custom_member_name_%r_%s" % (name[:6], tag), dict(ident, **{name: "v"}), v, False))
                 lines.append(junk_one("custom_member_name_%r_strict_%s" % (name[:6], tag), dict(ident, **{name: "v"}), v, True))
+    # marking definitions with every subset of definition_type / definition / extensions present (2.1 lets extensions stand in for the definition)
+    extdef = {"extension-definition--11111111-1111-4111-8111-111111111111": {"extension_type": "property-extension", "a": 1}}
+    for v in VERSIONS:
+        for dt_, dfn in (("tlp", {"tlp": "white"}), ("statement", {"statement": "x"}), ("x-unknown", {"k": "v"})):
+            for keep in ((), ("definition_type",), ("definition",), ("definition_type", "definition")):
+                for with_ext in (False, True):
+                    if with_ext and v == "2.0":
+                        continue
+                    d = {"type": "marking-definition", "id": "marking-definition--" + (TLP_FIXED["white"] if dt_ == "tlp" else "11111111-1111-4111-8111-111111111111"),
+                         "created": "2017-01-20T00:00:00.000Z"}
+                    if v == "2.1":
+                        d["spec_version"] = "2.1"
+                    if "definition_type" in keep:
+                        d["definition_type"] = dt_
+                    if "definition" in keep:
+                        d["definition"] = dict(dfn)
+                    if with_ext:
+                        d["extensions"] = copy.deepcopy(extdef)
+                    for strict in (True, False):
+                        ln = junk_one("marking_definition_%s_keeps_%s_%s" % (dt_, "+".join(keep) or "nothing", "ext" if with_ext else "noext"), d, v, strict)
+                        ln["strict"] = False          # (judged for the error family only)
+                        ln.pop("output", None)
+                        ln["doc"] = {"key": "objects:?", "props": []}
+                        lines.append(ln)
+    # free-form content (an extension definition the library does not know, a custom property) of an observable whose identifier the library computes from it:
+    # numbers without a JSON form, very large numbers, deep nesting
+    for nm, val in (("huge_int", 10 ** 400), ("huge_negative_int", -10 ** 400), ("nan", float("nan")), ("inf", float("inf")), ("big_float", 1e308), ("minus_zero", -0.0),
+                    ("int_2_63", 2 ** 63), ("nested_huge", {"k": [1, {"z": 10 ** 400}]}), ("list_of_nan", [float("nan")])):
+        for where in ("unknown_extension", "custom_property"):
+            d = {"type": "file", "spec_version": "2.1", "name": "f"}
+            if where == "unknown_extension":
+                d["extensions"] = {"extension-definition--11111111-1111-4111-8111-111111111111": {"extension_type": "property-extension", "a": val}}
+            else:
+                d["x_free"] = val
+            for strict in (True, False):
+                ln = junk_one("free_form_number_%s_in_%s" % (nm, where), d, "2.1", strict)
+                ln["strict"] = False
+                ln.pop("output", None)
+                ln["doc"] = {"key": "objects:?", "props": []}
+                ln["input"] = {"generated": "free_form_number_%s_in_%s" % (nm, where)}
+                lines.append(ln)
     # registered extensions (toplevel and property extensions) whose content claims another extension type, or carries the other kind's members
     c = custom_types()
     g21 = schema.Gen("2.1", rng)
